@@ -98,6 +98,8 @@ structure S where
   nextEx : Nat := 0
   placeholders : List Nat := []       -- exchange ids nobody listens to (AdoptSession)
   waiters : List (String × WaitKind) := []
+  lockq : List (String × WaitKind) := []   -- requests blocked on the write semaphore behind `held`, oldest first
+  early : List (String × Err) := []        -- Ping answers that arrived before their caller reached the wait
   parked : Bool := false              -- the reader is inside ReadSlices, blocked between packets
   parkedDial : Bool := false          -- … blocked inside the Dialer (holds connSem)
   parkedHs : Option (Bool × Bool × Option Conn) := none
@@ -201,15 +203,37 @@ def S.startTx (s : S) (tag : String) (filters : Option (List Bytes)) : S × Opti
 def S.endTx (s : S) (id : Nat) : S × Option Tx :=
   ({ s with txs := s.txs.filter (·.id != id) }, s.txs.find? (·.id == id))
 
+/-- the request is blocked before its wait for the response: inside `lockWrite` or inside `conn.Write` -/
+def S.onTheWay (s : S) (tag : String) : Bool :=
+  s.held.any (·.1 == tag) || s.lockq.any (·.1 == tag) || s.waiters.any (·.1 == tag)
+
+/-- an answer goes into the request's own one-place channel: the call returns with it at once when it waits there,
+and finds it later (`early`) when it still is on its way to that wait -/
+def S.answer (s : S) (tag : String) (e : Err) : S :=
+  if s.onTheWay tag then { s with early := s.early ++ [(tag, e)] } else s.emit (.ret tag e)
+
+def S.dropEarly (s : S) (tag : String) : S := { s with early := s.early.filter (·.1 != tag) }
+
 def S.breakAll (s : S) : S :=
-  let s' := s.txs.foldl (fun s t => s.emit (.ret t.tag (mkErr ["break"]))) s
+  let s' := s.txs.foldl (fun s t => s.answer t.tag (mkErr ["break"])) s
   { s' with txs := [] }
 
 /-! ### Signals, offline, waiters -/
 
 def S.releasePing (s : S) (e : Err) : S :=
   match s.ping with
-  | some tag => ({ s with ping := none }).emit (.ret tag e)
+  | some tag =>
+    ({ s with ping := none }).answer tag e
+  | none => s
+
+/-- a failed or cancelled Ping frees the slot only when it still holds its own callback (request.go:114-118) -/
+def S.dropPing (s : S) (tag : String) : S :=
+  { s with ping := if s.ping == some tag then none else s.ping, early := s.early.filter (·.1 != tag) }
+
+/-- a Ping whose PINGREQ is out starts to wait; an answer may be there already -/
+def S.pingWaits (s : S) (tag : String) : S :=
+  match s.early.find? (·.1 == tag) with
+  | some (_, e) => ({ s with early := s.early.filter (·.1 != tag) }).emit (.ret tag e)
   | none => s
 
 /-- replace the gate at the head of the write policy by the outcome the script released it with -/
@@ -229,8 +253,8 @@ def S.runWriter (s : S) (tag : String) (k : WaitKind) : S :=
     let e := if s.link == .closed then mkErr ["closed"] else mkErr ["down"]
     match k with
     | .pub0 _ => s.emit (.ret tag e)
-    | .sub id _ | .unsub id _ => ((s.endTx id).1).emit (.ret tag e)
-    | .ping => ({ s with ping := none }).emit (.ret tag e)
+    | .sub id _ | .unsub id _ => (((s.endTx id).1).dropEarly tag).emit (.ret tag e)
+    | .ping => (s.dropPing tag).emit (.ret tag e)
   else
     match k with
     | .pub0 bufs =>
@@ -240,14 +264,33 @@ def S.runWriter (s : S) (tag : String) (k : WaitKind) : S :=
         s.emit (.ret tag e)
     | .sub id p | .unsub id p =>
       let (s, o) := s.connWrite (writeTo · p)
-      if o == .ok then s else
+      if o == .ok then s.pingWaits tag else
         let (s, e) := s.afterWriteErr o
-        ((s.endTx id).1).emit (.ret tag e)
+        (((s.endTx id).1).dropEarly tag).emit (.ret tag e)
     | .ping =>
       let (s, o) := s.connWrite (writeTo · packetPINGREQ)
-      if o == .ok then s else
+      if o == .ok then s.pingWaits tag else
         let (s, e) := s.afterWriteErr o
-        ({ s with ping := none }).emit (.ret tag e)
+        (s.dropPing tag).emit (.ret tag e)
+
+/-- the write lock came free: the requests queued on the semaphore take it in their order of arrival. One that
+finds no connection joins the pollers; one that meets a write gate becomes the new holder and the rest stays. -/
+def S.drainLockq : Nat → S → S
+  | 0, s => s
+  | fuel + 1, s =>
+    if s.held.isSome then s else
+    match s.lockq with
+    | [] => s
+    | (tag, k) :: rest =>
+      let s := { s with lockq := rest }
+      match s.link with
+      | .pending => S.drainLockq fuel { s with waiters := s.waiters ++ [(tag, k)] }
+      | .live =>
+        if s.gateAhead then { s with held := some (tag, k) }
+        else S.drainLockq fuel (s.runWriter tag k)
+      | _ => S.drainLockq fuel (s.runWriter tag k)
+
+def S.afterHolder (s : S) : S := S.drainLockq (s.lockq.length + 1) s
 
 /-- a waiter that found the live connection performs its write -/
 def S.runWaiters (s : S) : S :=
@@ -260,7 +303,7 @@ def S.toOffline (s : S) : S :=
   let s := s.closeConn
   -- a request blocked inside conn.Write is interrupted by the close and hands the lock back
   let s := match s.held with
-    | some (wtag, k) => (({ s with held := none }).openGateClosed).runWriter wtag k
+    | some (wtag, k) => ((({ s with held := none }).openGateClosed).runWriter wtag k).afterHolder
     | none => s
   let s := { s with link := .pending, readConn := false, big := none, peek := [] }
   let s := s.releasePing (mkErr ["break"])
@@ -313,8 +356,8 @@ def connackCheck (clean : Bool) (packet : Bytes) (e : Option RErr) : HsResult :=
 def S.failWaiters (s : S) (e : Err) : S :=
   let s' := s.waiters.foldl (fun s (tag, k) =>
     let s := match k with
-      | .sub id _ | .unsub id _ => (s.endTx id).1
-      | .ping => { s with ping := none }
+      | .sub id _ | .unsub id _ => ((s.endTx id).1).dropEarly tag
+      | .ping => s.dropPing tag
       | .pub0 _ => s
     s.emit (.ret tag e)) s
   { s' with waiters := [] }
@@ -617,11 +660,11 @@ def S.onSUBACK (s : S) : S × Option Err :=
       | (s, some tx) =>
         let fs := tx.filters.getD []
         if fs.length != codes.length then
-          (s.emit (.ret tx.tag (mkErr ["break"])), some (mkErr ["reset"]))
+          (s.answer tx.tag (mkErr ["break"]), some (mkErr ["reset"]))
         else
           let failed := (fs.zip codes).filterMap fun (f, code) => if code.toNat == 128 then some f else none
-          if failed.isEmpty then (s.emit (.ret tx.tag errOk), none)
-          else (s.emit (.ret tx.tag (mkErr [subErrTag failed])), none)
+          if failed.isEmpty then (s.answer tx.tag errOk, none)
+          else (s.answer tx.tag (mkErr [subErrTag failed]), none)
   | _ => (s, some (mkErr ["reset"]))
 
 /-- `onUNSUBACK` (request.go:456-472) -/
@@ -633,7 +676,7 @@ def S.onUNSUBACK (s : S) : S × Option Err :=
     else if id / (Facts.unorderedIDMask + 1) * (Facts.unorderedIDMask + 1) != Facts.unsubscribeIDSpace then (s, some (mkErr ["reset"]))
     else match s.endTx id with
       | (s, none) => (s, none)
-      | (s, some tx) => (s.emit (.ret tx.tag errOk), none)
+      | (s, some tx) => (s.answer tx.tag errOk, none)
   | _ => (s, some (mkErr ["reset"]))
 
 /-- `onPINGRESP` (request.go:138-149) -/
@@ -692,7 +735,7 @@ def S.rsLoop : Nat → S → S × RsResult
         | (s, .unsupported w) => (s, .unsupported w)
         | (s, .done none) =>
           if !s.waiters.isEmpty then
-            if !s.quietAfterConnect then (s, .unsupported "waiter races with the reader") else
+            if !s.quietAfterConnect || s.waiters.length > 1 then (s, .unsupported "waiter races with the reader") else
             S.rsLoop fuel s.runWaiters
           else S.rsLoop fuel s
       else (s.toOffline, .err e)
@@ -753,7 +796,7 @@ def S.finishRs (s : S) (r : RsResult) : S × RsResult :=
 
 /-- the prologue of `readSlices` after the auto-connect (client.go:1189-1226), then the packet loop -/
 def S.rsAfterConnect (s : S) : S × RsResult :=
-  if !s.waiters.isEmpty && !s.quietAfterConnect then (s, .unsupported "waiter races with the reader") else
+  if !s.waiters.isEmpty && (!s.quietAfterConnect || s.waiters.length > 1) then (s, .unsupported "waiter races with the reader") else
   let s := s.runWaiters
   -- flush big message if any
   let (s, de) : S × Option Err := match s.big with
@@ -803,7 +846,7 @@ def S.readSlices (s : S) : S × RsResult :=
     | (s, .done none) =>
       if fromPrologue then s.rsAfterConnect
       else
-        if !s.waiters.isEmpty && !s.quietAfterConnect then (s, .unsupported "waiter races with the reader") else
+        if !s.waiters.isEmpty && (!s.quietAfterConnect || s.waiters.length > 1) then (s, .unsupported "waiter races with the reader") else
         let (s, r) := S.rsLoop s.rsFuel s.runWaiters
         s.finishRs r
   | none =>
@@ -857,7 +900,8 @@ def S.publish0 (s : S) (tag : String) (retain : Bool) (topic msg : Bytes) : S ×
       if !s.waiters.isEmpty then (s, .unsupported "second waiter") else
       ({ s with waiters := [(tag, .pub0 [hd, msg])] }, .blocked)
     | .go =>
-      if s.held.isSome || !s.closers.isEmpty then (s, .unsupported "request while the write lock is held") else
+      if !s.closers.isEmpty then (s, .unsupported "request while a closer waits") else
+      if s.held.isSome then ({ s with lockq := s.lockq ++ [(tag, .pub0 [hd, msg])] }, .blocked) else
       if s.gateAhead then ({ s with held := some (tag, .pub0 [hd, msg]) }, .blocked) else
       let (s, o) := s.connWrite (writeBuffersTo · [hd, msg])
       if o == .ok then (s, .ret errOk) else
@@ -912,7 +956,8 @@ def S.subscribe (s : S) (tag : String) (filters : List Bytes) (levelMax : Nat) :
         if !s.waiters.isEmpty then (s, .unsupported "second waiter") else
         ({ s with waiters := [(tag, .sub id packet)] }, .blocked)
       | .go =>
-        if s.held.isSome || !s.closers.isEmpty then (s, .unsupported "request while the write lock is held") else
+        if !s.closers.isEmpty then (s, .unsupported "request while a closer waits") else
+        if s.held.isSome then ({ s with lockq := s.lockq ++ [(tag, .sub id packet)] }, .blocked) else
         if s.gateAhead then ({ s with held := some (tag, .sub id packet) }, .blocked) else
         let (s, o) := s.connWrite (writeTo · packet)
         if o == .ok then (s, .blocked) else
@@ -935,7 +980,8 @@ def S.unsubscribe (s : S) (tag : String) (filters : List Bytes) : S × CallResul
         if !s.waiters.isEmpty then (s, .unsupported "second waiter") else
         ({ s with waiters := [(tag, .unsub id packet)] }, .blocked)
       | .go =>
-        if s.held.isSome || !s.closers.isEmpty then (s, .unsupported "request while the write lock is held") else
+        if !s.closers.isEmpty then (s, .unsupported "request while a closer waits") else
+        if s.held.isSome then ({ s with lockq := s.lockq ++ [(tag, .unsub id packet)] }, .blocked) else
         if s.gateAhead then ({ s with held := some (tag, .unsub id packet) }, .blocked) else
         let (s, o) := s.connWrite (writeTo · packet)
         if o == .ok then (s, .blocked) else
@@ -948,28 +994,29 @@ def S.pingCall (s : S) (tag : String) : S × CallResult :=
   if s.ping.isSome then (s, .ret (mkErr ["max"])) else
   let s := { s with ping := some tag }
   match s.lockWrite with
-  | .fail e => ({ s with ping := none }, .ret e)
+  | .fail e => (s.dropPing tag, .ret e)
   | .wait =>
     if !s.waiters.isEmpty then (s, .unsupported "second waiter") else
     ({ s with waiters := [(tag, .ping)] }, .blocked)
   | .go =>
-    if s.held.isSome || !s.closers.isEmpty then (s, .unsupported "request while the write lock is held") else
+    if !s.closers.isEmpty then (s, .unsupported "request while a closer waits") else
+    if s.held.isSome then ({ s with lockq := s.lockq ++ [(tag, .ping)] }, .blocked) else
     if s.gateAhead then ({ s with held := some (tag, .ping) }, .blocked) else
     let (s, o) := s.connWrite (writeTo · packetPINGREQ)
     if o == .ok then (s, .blocked) else
       if o == .gate then (s, .unsupported "write gate inside a packet") else
       let (s, e) := s.afterWriteErr o
-      ({ s with ping := none }, .ret e)
+      (s.dropPing tag, .ret e)
 
 /-- the quit channel of a blocked call fires -/
 def S.quit (s : S) (tag : String) : S × Option Err :=
-  match s.waiters.find? (·.1 == tag) with
+  match (s.waiters ++ s.lockq).find? (·.1 == tag) with
   | some (_, k) =>
     -- inside lockWrite: ErrCanceled, nothing was sent
-    let s := { s with waiters := s.waiters.filter (·.1 != tag) }
+    let s := { s with waiters := s.waiters.filter (·.1 != tag), lockq := s.lockq.filter (·.1 != tag) }
     let s := match k with
-      | .sub id _ | .unsub id _ => (s.endTx id).1
-      | .ping => { s with ping := none }
+      | .sub id _ | .unsub id _ => ((s.endTx id).1).dropEarly tag
+      | .ping => s.dropPing tag
       | .pub0 _ => s
     (s, some (mkErr ["canceled"]))
   | none =>
@@ -1040,7 +1087,7 @@ def S.closeCall (s : S) (tag : String) (isDisc : Bool) : S × CloseResult :=
         -- Close interrupts the writer by closing the connection, then takes the lock from it
         let s := s.closeConn
         let s := s.openGateClosed
-        let s := ({ s with held := none }).runWriter wtag k
+        let s := (({ s with held := none }).runWriter wtag k).afterHolder
         (s.closeNow, .ret errOk)
     | none =>
       if isDisc then
@@ -1053,7 +1100,8 @@ def S.release (s : S) (o : Option WPol) : S :=
   match s.held with
   | none => s
   | some (wtag, k) =>
-    let s := (({ s with held := none }).openGate o).runWriter wtag k
+    let s := ((({ s with held := none }).openGate o).runWriter wtag k).afterHolder
+    if s.held.isSome then s else
     match s.closers with
     | (tag, true) :: rest =>
       let (s, e) := ({ s with closers := rest }).disconnectNow
@@ -1077,7 +1125,7 @@ def S.initSession (s : S) (clientID : Bytes) (cfg : Cfg) : S × Option Err :=
 /-- `AdoptSession` (request.go:819-979) on the current store; the previous client is abandoned -/
 def S.adoptSession (s : S) (cfg : Cfg) : S × Except Err (List Warn) :=
   -- the process stops: its connection dies with it
-  let s := { s with noClient := true, parked := false, waiters := [], txs := [], ping := none, conn := none,
+  let s := { s with noClient := true, parked := false, waiters := [], lockq := [], early := [], held := none, txs := [], ping := none, conn := none,
                     readConn := false, hadConn := false, link := .pending }
   if cfg.valid.isSome then (s, .error (mkErr ["deny"])) else
   let outboundKeys := s.core.store.sortedKeys.filter fun k => !(k == Facts.clientIDKey || k / Facts.remoteIDKeyFlag % 2 == 1)
